@@ -346,13 +346,18 @@ def estimate_stats(voltages, stats_calc_num_samples=10000):
         Standard deviation of voltages
     """
     calc_len = xp.amin(xp.array([stats_calc_num_samples, len(voltages)]))
-    data_sigma = xp.std(voltages[:calc_len])
-    data_mean = xp.mean(voltages[:calc_len])
+    # Estimate in double precision, whatever the sample type: integer voltages would make the 
+    # returned mean an integer (and `x - mean` wrap around), single and half precision overflow 
+    # or lose the deviation on an offset
+    voltages = voltages[:calc_len]
+    voltages = xp.asarray(voltages, dtype=complex if xp.iscomplexobj(voltages) else float)
+    data_sigma = xp.std(voltages)
+    data_mean = xp.mean(voltages)
     
     # The rounded mean of constant samples can differ from them in the last bit, which
     # leaves a tiny non-zero deviation; a constant input has exactly zero deviation.
-    if calc_len > 0 and xp.amax(voltages[:calc_len]) == xp.amin(voltages[:calc_len]):
-        data_mean = xp.amin(voltages[:calc_len])
+    if calc_len > 0 and xp.amax(voltages) == xp.amin(voltages):
+        data_mean = xp.amin(voltages)
         data_sigma = 0.
     
     return data_mean, data_sigma
